@@ -315,7 +315,7 @@ func TestConsensusScripts(t *testing.T) {
 	var keys []string
 	for k, s := range scripts {
 		sc := scenario{Name: fmt.Sprintf("%s-%s", tag, s.Name), Powers: s.Powers, Byz: s.Byz, Inputs: s.Inputs, Instances: 1, MaxSteps: envInt("VERIF_MAXSTEPS", 3000),
-			MaxRound: 40, Lookahead: s.Lookahead, Adversary: "script"}
+			MaxRound: 40, Lookahead: s.Lookahead, Adversary: "script", RebroadcastAfterRound: []int{-1, 0, 1}[k%3]}
 		sort.Ints(sc.Byz)
 		w := newWorld(sc, int64(k)+1)
 		w.runScript(s)
